@@ -19,6 +19,7 @@ import (
 	"errors"
 	"fmt"
 	"net"
+	"os"
 	"strings"
 	"sync"
 	"time"
@@ -39,6 +40,7 @@ type pconn struct {
 	writes  int
 	tags    int
 	onWrite func(p []byte)
+	wd      time.Time
 }
 
 func (c *pconn) Read(p []byte) (int, error) {
@@ -48,8 +50,27 @@ func (c *pconn) Read(p []byte) (int, error) {
 	return c.Conn.Read(p)
 }
 
+// the probe connection honours the write deadline like a real transport
+func (c *pconn) SetWriteDeadline(t time.Time) error {
+	c.mu.Lock()
+	c.wd = t
+	c.mu.Unlock()
+	return c.Conn.SetWriteDeadline(t)
+}
+
+func (c *pconn) SetDeadline(t time.Time) error {
+	c.mu.Lock()
+	c.wd = t
+	c.mu.Unlock()
+	return c.Conn.SetDeadline(t)
+}
+
 func (c *pconn) Write(p []byte) (int, error) {
 	c.mu.Lock()
+	if !c.wd.IsZero() && time.Until(c.wd) <= 0 {
+		c.mu.Unlock()
+		return 0, os.ErrDeadlineExceeded
+	}
 	c.writes++
 	if bytes.Contains(p, []byte(closeTag)) {
 		c.tags++
@@ -78,7 +99,9 @@ func newProbeSess() (*psess, error) {
 	c1, c2 := net.Pipe()
 	pc := &pconn{Conn: c1}
 	go c2.Write([]byte(header))
-	s, err := xmpp.NewSession(context.Background(), remoteJID, localJID, pc, 0, negotiator)
+	ctx, cancel := context.WithCancel(context.Background())
+	s, err := xmpp.NewSession(ctx, remoteJID, localJID, pc, 0, negotiator)
+	cancel() // the negotiation context is released: it must not matter afterwards
 	if err != nil {
 		return nil, err
 	}
